@@ -9,6 +9,9 @@ Line protocol of the C16 correspondence run (same request file as harness/src/bi
   `(ins <mem|disk> (decls (<TY> <null|notnull>)*) (rows (<val>*)*))`
                                        -> `ok (<val>*)* ;; ok <spec rows> ;; <tag>*`  rows of `SELECT *`, sorted
 
+  `(inscols <eng> (decls …) (cols i…) (rows …))`  INSERT INTO t(c_i…) VALUES …, same answer format
+  `(inssel <eng> (src (<TY> <n>)*) (decls …) (rows …))`  rows into s, then INSERT INTO t SELECT * FROM s
+
   texpr : `(leaf T)` | `bad` | `(cast T a)` | `(neg a)` | `(+|-|*|/|% a b)` | `(|| a b)` | `(like a b)`
           | `(not a)` | `(=|<>|>|<|>=|<= a b)` | `(and|or|xor a b)` | `(if c t e)` | `(in x (list a*))`
           | `(isnull a)` | `(extract a)` | `(substring s a b)` | `(repeat s n)` | `(replace a f t)`
@@ -152,6 +155,35 @@ def answer (line : String) : String :=
       "ok " ++ showRows (selectAll e decls rows) ++ " ;; ok " ++ showRows (specTable decls rows)
         ++ " ;; " ++ " ".intercalate tags
     | _, _ => "bad-request"
+  | some (.list [.atom "inscols", .atom eng, .list (.atom "decls" :: ds), .list (.atom "cols" :: cs),
+      .list (.atom "rows" :: rs)]) =>
+    match parseDecls ds, parseValRows rs with
+    | some decls, some rows =>
+      let e := if eng == "disk" then Engine.disk else Engine.mem
+      let cols := cs.filterMap fun c => match c with | .atom a => a.toNat? | _ => none
+      let full := rows.map (expandRow decls.length cols)
+      let showRows := fun (rs : List (List IVal)) =>
+        " ".intercalate (insertionSortStr (rs.map fun r => "(" ++ " ".intercalate (r.map showIVal) ++ ")"))
+      let tags := (full.filter fun r => (castRow decls r).isOk).map (rowTags e decls) |>.flatten |>.eraseDups
+      "ok " ++ showRows (selectAll e decls full) ++ " ;; ok " ++ showRows (specTable decls full)
+        ++ " ;; " ++ " ".intercalate tags
+    | _, _ => "bad-request"
+  | some (.list [.atom "inssel", .atom eng, .list (.atom "src" :: ss), .list (.atom "decls" :: ds),
+      .list (.atom "rows" :: rs)]) =>
+    match parseDecls ss, parseDecls ds, parseValRows rs with
+    | some sdecls, some decls, some rows =>
+      let e := if eng == "disk" then Engine.disk else Engine.mem
+      -- what `SELECT * FROM s` yields (the disk engine already replaced NULLs of NOT NULL columns)
+      let src := selectAll e sdecls rows
+      let stored := insertSelect decls src
+      let showRows := fun (rs : List (List IVal)) =>
+        " ".intercalate (insertionSortStr (rs.map fun r => "(" ++ " ".intercalate (r.map showIVal) ++ ")"))
+      -- reasons arising when filling `s` (e.g. a NULL in a NOT NULL source column) carry over
+      let stags := ((rows.filter fun r => (castRow sdecls r).isOk).map (rowTags e sdecls)).flatten
+      let tags := (stags ++ ((if stored.isEmpty then [] else src).map (rowTags e decls)).flatten).eraseDups
+      "ok " ++ showRows (stored.map (readRow e decls)) ++ " ;; ok " ++ showRows (specInsertSelect decls src)
+        ++ " ;; " ++ " ".intercalate tags
+    | _, _, _ => "bad-request"
   | _ => "bad-request"
 
 partial def loop (h : IO.FS.Stream) : IO Unit := do
